@@ -17,7 +17,7 @@ CONSTANTS
  Plants <- PNone
  MaxPlant = 0
  Ticks <- TkHour
- MaxTick = 4
+ MaxTick = 3
  Nodes = {1}
  NodeApiOn = TRUE
  NodeWatch = FALSE
